@@ -112,6 +112,17 @@ def run(ck: Checker, prog: Program, tier: str):
                              loc=es[0].chain[0].loc, path=chain_text(es[0]))
     ck.floor("C18.R1c", n, 25, "methods of TimeSeries and SeismicRecording3C")
 
+    # a wrapping decorator (memoisation) would hand the same object, hence the same storage, to two callers
+    for cls in (ts, sr):
+        for m in cls.methods.values():
+            extra = [d for d in m.decorators if d not in ("property", "staticmethod", "classmethod") and not d.endswith((".setter", ".getter", ".deleter"))]
+            if extra:
+                ck.violation("C18.R1b", m.qualname, f"decorator {extra[0]}",
+                             f"`@{extra[0]}` wraps {m.qualname}: what it returns may be a cached object shared between callers (and stale after the file changes)",
+                             loc=m.loc())
+            else:
+                ck.ok("C18.R1b", m.qualname, "no wrapping decorator", nontrivial=False)
+
     ck.guard(_r2, ck, prog)
     ck.guard(_r3, ck, prog)
     ck.extra["calls_resolved"] = eng.calls_resolved
